@@ -46,3 +46,7 @@ GENERATORS.append(_extract_vtk.gen_cfg_vtk)
 # C17: the jax.lax.custom_root call of ScalarRootFind.find_root (tangent solve and result post-processing as kernels, wiring flags)
 from . import extract_c17 as _extract_c17   # noqa: E402
 GENERATORS.append(_extract_c17.generate)
+
+# C15: store structure (aliasing / augmented assignment) of Mechanics.create_dynamics_functions.predict / correct and their jit wrapping (IR of model/M_C15_Purity.v)
+from . import extract_c15 as _extract_c15   # noqa: E402
+GENERATORS.append(_extract_c15.generate)
